@@ -152,6 +152,12 @@ def _str_tok(s, surf, path, item, j, allow_bare=True):
 
 def _obj_tokens(obj, surf, path, out):
     out.append(Tok(surf.kw(obj["t"]), "open", path, kind="kw"))
+    if "kvroot" in obj:
+        j = 0
+        for a, b in obj["kvroot"]:
+            out.append(_str_tok(a, surf, path, "kvroot", j))
+            out.append(_str_tok(b, surf, path, "kvroot", j + 1))
+            j += 2
     for i, it in enumerate(obj["items"]):
         kind = it[0]
         if kind == "obj":
@@ -300,6 +306,8 @@ def _opens_block(toks, i):
 
 def _in_val_block(toks, i):
     t = toks[i]
+    if t.item == "kvroot":
+        return "pairs"
     k = i
     while k >= 0 and not (toks[k].role == "key" and toks[k].item == t.item and toks[k].path == t.path):
         k -= 1
